@@ -98,6 +98,23 @@ def toy_regs():
     check_same("pure", before, snapshot(sim))
 
 
+@unit("C17/ToySimulation.get_register_representations/ir")
+def toy_ir():
+    """the instruction register shows the word that was fetched (every 16-bit word whose opcode is one of the thirteen;
+    words with opcode 13..15 are held as the NOP they act as)"""
+    from architecture_simulator.isa.toy.toy_instructions import ToyInstruction
+    sim = ToySimulation()
+    w = sym_int("word", 0, 65535)
+    sim.state.max_pc = 5
+    sim.state.loaded_instruction = ToyInstruction.from_integer(w)
+    r = sim.get_register_representations()
+    shown = ite(w // 4096 <= 12, w, 12 * 4096 + w % 4096)
+    e = expected(shown, 16)
+    check("ir", r["ir"][0] == e[0] and r["ir"][1] == e[1] and r["ir"][2] == e[2] and r["ir"][3] == e[3])
+    sim.state.loaded_instruction = None
+    check("no_instruction_loaded_shows_nothing", sim.get_register_representations()["ir"] == ("", "", "", ""))
+
+
 @unit("C17/canary/sign-threshold", canary=True)
 def canary_sign():
     x = sym_int("number")
